@@ -23,40 +23,40 @@ def F(fuzz, seconds):
 CHECKS = {
     'C01': dict(
         level='exploration',
-        units=[U('^TestC01$', (4, 4000), (16, 150000))],
+        units=[U('^TestC01$', (8, 12000), (16, 150000))],
         essential_labels=['mapping:log', 'mapping:linear', 'mapping:cubic', 'pos:dense', 'pos:sparse', 'pos:paginated', 'has-neg', 'has-zero', 'has-submin', 'has-edge-value', 'extreme-magnitude', 'q-on-integer-rank', 'interior-q-across-bins', 'custom-offset'],
         assumptions=COMMON_ASSUMPTIONS + ["floating-point slack 64*2^-52*(1+|ln v|+(|i|+|offset|)*ln gamma) is allowed on top of alpha (DESIGN §1.1)", "dense/paginated sketches draw values from an index window of at most 2^14 bins (memory)"],
     ),
     'C02': dict(
         level='exploration',
-        units=[U('^TestC02$', (4, 1500), (16, 40000))],
+        units=[U('^TestC02$', (8, 4000), (16, 40000))],
         essential_labels=['mixed-store-kinds', 'same-kind-fast-path', 'tree-depth>=2', 'has-zero', 'has-neg', 'recycled-part', 'empty-part', 'decode-merge-edge'],
         assumptions=COMMON_ASSUMPTIONS + ["dyadic bounded weights make every float sum exact, so merged and single-sketch observations are compared bit for bit"],
     ),
     'C03': dict(
         level='exploration',
-        units=[U('^TestC03$', (4, 8000), (16, 400000))],
+        units=[U('^TestC03$', (8, 20000), (16, 400000))],
         essential_labels=['kind:log', 'kind:linear', 'kind:cubic', 'built:alpha', 'built:gamma', 'offset:2^30', 'offset:int32-bound', 'offset:small', 'offset:default', 'probe:bin-edge', 'probe:binade-edge', 'probe:range-end'],
         assumptions=COMMON_ASSUMPTIONS + ["floating-point slack 64*2^-52*(1+|ln v|+(|i|+|offset|)*ln gamma) on accuracy and bin containment (DESIGN §1.1)", "the bin after the last indexable one is not asserted (its lower bound overflows for interpolated mappings)"],
     ),
     'C19': dict(
         level='exploration',
-        units=[U('^TestC19$', (4, 6000), (16, 150000))],
+        units=[U('^TestC19$', (8, 15000), (16, 150000))],
         essential_labels=['kind:log', 'kind:linear', 'kind:cubic', 'non-default-offset', 'pair:cross-kind', 'pair:near-alpha', 'pair:offset'],
         assumptions=COMMON_ASSUMPTIONS + ["refdec reads kind/gamma/offset from the binary block independently of the repository's decoder"],
     ),
     'C20': dict(
         level='exploration',
-        units=[U('^TestC20$', (4, 3000, 40), (16, 60000, 80))],
+        units=[U('^TestC20$', (8, 8000, 40), (16, 60000, 80))],
         essential_labels=['add-after-query', 'merge', 'duplicate-heavy', 'q-on-integer-rank'],
         assumptions=COMMON_ASSUMPTIONS + ["rho=q*(n-1) is accepted evaluated exactly or in binary64 (they differ only within half an ulp of an integer)", "NaN q and Min/Max of an empty dataset are outside the statement and not exercised"],
     ),
     'C04': dict(
         level='exploration',
         units=[
-            U('^TestC04_Dense$', (2, 400, 50), (5, 8000, 120)),
-            U('^TestC04_Sparse$', (2, 400, 50), (5, 8000, 120)),
-            U('^TestC04_Paginated$', (2, 400, 50), (6, 8000, 120)),
+            U('^TestC04_Dense$', (3, 500, 50), (5, 8000, 120)),
+            U('^TestC04_Sparse$', (3, 500, 50), (5, 8000, 120)),
+            U('^TestC04_Paginated$', (4, 500, 50), (6, 8000, 120)),
         ],
         essential_labels=['kind:dense', 'kind:sparse', 'kind:paginated', 'event:array-shift', 'event:page-created', 'event:buffer-compacted', 'op:merge', 'op:encdec', 'op:proto', 'op:reweight', 'op:copy', 'op:clear'],
         assumptions=COMMON_ASSUMPTIONS + ["weights are dyadic and bounded so that every float64 partial sum is exact (DESIGN §1.1); index spans are capped per store kind by memory"],
@@ -64,81 +64,81 @@ CHECKS = {
     'C05': dict(
         level='exploration',
         units=[
-            U('^TestC05_Stores$', (4, 1000, 50), (12, 15000, 120)),
-            U('^TestC05_Sketch$', (2, 600), (4, 15000)),
+            U('^TestC05_Stores$', (8, 2500, 60), (12, 15000, 120)),
+            U('^TestC05_Sketch$', (4, 3000), (4, 15000)),
         ],
         essential_labels=['kind:collow', 'kind:colhigh', 'folded', 'op-after-fold', 'merge-same-kind', 'merge-wide-into-empty', 'add-beyond-edge-after-collapse'],
         assumptions=COMMON_ASSUMPTIONS + ["fold(M,N) model: folding is history-independent (DESIGN §2 C05); dyadic weights"],
     ),
     'C06': dict(
         level='exploration',
-        units=[U('^TestC06$', (4, 1200), (14, 25000)), U('^TestC06_ArbitraryWeights$', (1, 4000), (2, 100000))],
+        units=[U('^TestC06$', (8, 3000), (14, 25000)), U('^TestC06_ArbitraryWeights$', (2, 10000), (2, 100000))],
         essential_labels=['layout:1', 'layout:2', 'layout:3', 'omit-mapping', 'prefix', 'concatenation', 'non-empty-receiver', 'both-sides', 'block:zero', 'variant:exact', 'target:collow', 'target:colhigh', 'target:paginated', 'source:paginated', 'arbitrary-weights', 'weight-changed-by-transform', 'weight-vanishes'],
         assumptions=COMMON_ASSUMPTIONS + ["dyadic bounded weights survive the documented (w+1)-1 transform exactly; arbitrary weights are checked bit-for-bit against (w+1)-1 without being summed"],
     ),
     'C07': dict(
         level='exploration',
-        units=[U('^TestC07_EncoderConforms$', (2, 2000), (6, 40000)), U('^TestC07_DecoderAcceptsGrammar$', (3, 1200), (10, 20000)), F('FuzzC07Grammar', 120)],
+        units=[U('^TestC07_EncoderConforms$', (4, 6000), (6, 40000)), U('^TestC07_DecoderAcceptsGrammar$', (8, 3000), (10, 20000)), F('FuzzC07Grammar', 120)],
         essential_labels=['direction:A', 'direction:B', 'direction:C', 'layout:1', 'layout:2', 'layout:3', 'stride:negative', 'stride:zero', 'stride:large', 'repeated-index', 'N=0-block', 'repeated-mapping-block', 'mapping-between-bins', 'mapping-after-bins', 'exact-decoder', 'target:paginated', 'target:collow', 'multi-layout', 'producer:exact-variant'],
         assumptions=COMMON_ASSUMPTIONS + ["harness/refdec is the reading of the format documentation the streams are generated from and compared with", "indexes in generated streams are indexes of the mapping (between those of its smallest and largest indexable values) and stay within a memory-bounded cluster"],
     ),
     'C08': dict(
         level='fault_enumeration',
-        units=[U('^TestC08$', (4, 60), None), U('^TestC08_Thorough$', None, (16, 1500)), F('FuzzC08', 120)],
+        units=[U('^TestC08$', (12, 150), None), U('^TestC08_Thorough$', None, (16, 1500)), F('FuzzC08', 120)],
         essential_labels=['cut-inside-bin-block', 'cut:uvarint/n', 'cut:varint/delta', 'cut:varfloat/count', 'cut-inside:mapping', 'fault:undefined-flag', 'fault:mapping-mismatch', 'fault:mapping-missing', 'layout:1', 'layout:2', 'layout:3', 'producer:exact-variant'],
         assumptions=COMMON_ASSUMPTIONS + ["encodings are sampled; for each sampled encoding every cut point is enumerated (and every undefined flag at every block boundary in the thorough tier)", "arbitrary garbage is not thrown at the sketch decoders: the format lets a well-formed block describe 2^63 bins, which the property does not promise to handle gracefully"],
     ),
     'C09': dict(
         level='exploration',
-        units=[U('^TestC09_History$', (2, 2000), (8, 40000)), U('^TestC09_ArbitraryWeights$', (1, 3000), (4, 50000)), U('^TestC09_HandBuilt$', (1, 3000), (4, 50000))],
+        units=[U('^TestC09_History$', (6, 5000), (8, 40000)), U('^TestC09_ArbitraryWeights$', (3, 8000), (4, 50000)), U('^TestC09_HandBuilt$', (3, 8000), (4, 50000))],
         essential_labels=['mode:A', 'mode:B', 'mode:C', 'shape:sparse', 'shape:contiguous', 'shape:both', 'nil-store-message', 'negative-offset', 'custom-offset', 'target:collow', 'target:paginated', 'source:paginated', 'source:sparse', 'cleared-then-refilled'],
         assumptions=COMMON_ASSUMPTIONS + ["google.golang.org/protobuf Marshal/Unmarshal/Equal are trusted"],
     ),
     'C10': dict(
         level='exploration',
-        units=[U('^TestC10$', (4, 500, 40), (16, 12000, 100))],
+        units=[U('^TestC10$', (12, 1000, 50), (16, 12000, 100))],
         essential_labels=['op:add', 'op:bad', 'op:merge', 'op:decmerge', 'op:copy', 'op:clear', 'op:reweight', 'op:encdec', 'op:changemapping', 'rejected-add', 'zero-weight-add', 'non-dyadic-phase', 'store:dense', 'store:sparse', 'store:paginated'],
         assumptions=COMMON_ASSUMPTIONS + ["sum bound (8+2k)*2^-52*sum|v*w| plus a few subnormal ulps, k = number of reweight/rescale/decode/merge steps (DESIGN §2 C10)", "after a ChangeMapping nothing is compared with == (bin weights are no longer dyadic)", "values within [1e-50,1e50] so that unit changes keep them far inside every mapping's range"],
     ),
     'C11': dict(
         level='exploration',
-        units=[U('^TestC11$', (4, 4000), (16, 100000))],
+        units=[U('^TestC11$', (8, 12000), (16, 100000))],
         essential_labels=['W<1', 'one-sided', 'reached-by-reweight', 'fractional-weights', 'mode:single-light', 'mode:several-light', 'pos:dense', 'pos:sparse', 'pos:paginated'],
         assumptions=COMMON_ASSUMPTIONS + ["'within one unit of weight' is taken as distance(rank, cumulative-weight interval) <= 1 (DESIGN §2 C11)"],
     ),
     'C12': dict(
         level='exploration',
-        units=[U('^TestC12$', (4, 2500), (16, 50000))],
+        units=[U('^TestC12$', (8, 6000), (16, 50000))],
         essential_labels=['shape:all-negative', 'shape:all-zero', 'shape:zero+negative', 'shape:single-value', 'shape:sub-minimum', 'shape:mixed', 'after-merge', 'after-clear', 'after-decode', 'same-signed-sum', 'pos:collow', 'pos:colhigh', 'pos:paginated'],
         assumptions=COMMON_ASSUMPTIONS + ["accuracy of min/max/sum w.r.t. raw values is asserted only when no collapsing store took part in the history"],
     ),
     'C13': dict(
         level='exploration',
-        units=[U('^TestC13$', (4, 5000), (16, 100000))],
+        units=[U('^TestC13$', (8, 12000), (16, 100000))],
         essential_labels=['refused-add', 'refused-quantile', 'refused-merge', 'refused-reweight', 'refused-constructor', 'accept-at-boundary', 'state:empty', 'state:non-empty', 'variant:exact', 'variant:plain', 'mismatch:kind', 'mismatch:alpha'],
         assumptions=COMMON_ASSUMPTIONS + ["NaN weights/factors/constructor parameters are outside the property", "AddWithCount(invalid value, 0) on the exact variant may return nil or the error; only 'changes nothing' is required"],
     ),
     'C14': dict(
         level='exploration',
-        units=[U('^TestC14_Sketch$', (3, 300, 40), (8, 8000, 100)), U('^TestC14_Stores$', (3, 300, 40), (8, 8000, 100))],
+        units=[U('^TestC14_Sketch$', (7, 600, 50), (8, 8000, 100)), U('^TestC14_Stores$', (7, 600, 50), (8, 8000, 100))],
         essential_labels=['level:sketch', 'level:store', 'read:copy', 'read:merge-argument', 'read:encode', 'read:toproto', 'read:encodeproto', 'read:changemapping', 'read:store-reads', 'read:bins', 'copy-then-mutations-on-both-sides', 'mutation-after-read-on-buffered-paginated', 'variant:exact'],
         assumptions=COMMON_ASSUMPTIONS + ["aliasing between a returned protobuf message and the sketch is not asserted (the property speaks of the sketch's later answers)"],
     ),
     'C15': dict(
         level='exploration',
-        units=[U('^TestC15_Stores$', (3, 800), (8, 25000)), U('^TestC15_Sketch$', (3, 600), (8, 20000))],
+        units=[U('^TestC15_Stores$', (7, 2500), (8, 25000)), U('^TestC15_Sketch$', (7, 2000), (8, 20000))],
         essential_labels=['level:store', 'level:sketch', 'kind:dense', 'kind:sparse', 'kind:paginated', 'kind:collow', 'kind:colhigh', 'collapsed-before-clear', 'pages-before-clear', 'h2-shifted-range', 'repeated-cycles', 'cleared-sketch-as-decode-target', 'variant:exact'],
         assumptions=COMMON_ASSUMPTIONS + ["encoded bytes of cleared vs fresh objects are not compared (the paginated store legitimately keeps its compaction threshold); decoded content is"],
     ),
     'C16': dict(
         level='exploration',
-        units=[U('^TestC16_Stores$', (3, 800), (8, 25000)), U('^TestC16_Sketch$', (3, 600), (8, 20000))],
+        units=[U('^TestC16_Stores$', (7, 2500), (8, 25000)), U('^TestC16_Sketch$', (7, 2000), (8, 20000))],
         essential_labels=['level:store', 'level:sketch', 'kind:dense', 'kind:sparse', 'kind:paginated', 'kind:collow', 'kind:colhigh', 'w<1', 'w>1', 'w=1', 'paginated-buffer-and-pages-at-reweight', 'collapsed-at-reweight', 'both-sides', 'zero-bucket', 'variant:exact'],
         assumptions=COMMON_ASSUMPTIONS + ["dyadic factors only (w in {2^k, 3, 1.5, 0.75, 5}) so that scaled weights stay exact"],
     ),
     'C17': dict(
         level='exploration',
-        units=[U('^TestC17$', (4, 2500), (16, 60000))],
+        units=[U('^TestC17$', (8, 8000), (16, 60000))],
         essential_labels=['relation:equal', 'relation:finer', 'relation:coarser', 'relation:aligned', 'identity', 'scale:1', 'scale:other', 'negative-side', 'variant:exact', 'shape:single-bin', 'shape:two-far-bins', 'source:paginated', 'target:dense', 'target:sparse'],
         assumptions=COMMON_ASSUMPTIONS + ["weight tolerance 64*2^-52/min(alpha1,alpha2)*W (each proportion is a ratio of differences of nearly equal bounds)", "values in [1e-4,1e4] and scale in [1e-3,1e3]: well inside both mappings' ranges, as the property requires"],
     ),
@@ -146,8 +146,8 @@ CHECKS = {
         level='exploration',
         units=[
             U('^TestC18_Exhaustive$', (1, 0), (1, 0), once=True),
-            U('^TestC18_Values$', (2, 20000), (8, 400000)),
-            U('^TestC18_Bytes$', (2, 20000), (8, 400000)),
+            U('^TestC18_Values$', (6, 60000), (8, 400000)),
+            U('^TestC18_Bytes$', (6, 60000), (8, 400000)),
             F('FuzzC18Bytes', 90),
         ],
         essential_labels=['exhaustive:uvarint64', 'exhaustive:flags', 'len-class-boundary', 'float-nonfinite-or-negative', 'continuation-on-last-byte'],
